@@ -290,7 +290,7 @@ __CPROVER_loop_invariant(include_block_retained == ((k > 0 && RET(LeftIndices[0]
 __CPROVER_decreases(4 - k)
 //@end
 
-//@harness h_TPGF_prepare enforce=TwoParticleGF_prepare props=C02,C19 min_obl=3500 timeout=600 reach=5
+//@harness h_TPGF_prepare enforce=TwoParticleGF_prepare props=C02,C19 min_obl=3469 timeout=600 reach=5
 void h_TPGF_prepare(void)
 {
   struct TwoParticleGF *g;
@@ -349,7 +349,7 @@ cplx TwoParticleGFPart_call(struct TwoParticleGFPart *part, cplx z1, cplx z2, cp
 //@function Pomerol::TwoParticleGF::operator()(std::complex<double>, std::complex<double>, std::complex<double>) const as TwoParticleGF_call_z
 //@contract
 __CPROVER_requires(__CPROVER_is_fresh(self, sizeof(*self)) && g_self == self)
-__CPROVER_requires(PartVec_wf(&self->parts) && g_evals == 0 && SUM_IS_ZERO && C_SAME(g_z1, z1) && C_SAME(g_z2, z2) && C_SAME(g_z3, z3))
+__CPROVER_requires(g_wrap == (struct ComputeAndClearWrap *)0 && PartVec_wf(&self->parts) && g_evals == 0 && SUM_IS_ZERO && C_SAME(g_z1, z1) && C_SAME(g_z2, z2) && C_SAME(g_z3, z3))
 __CPROVER_assigns(g_sum, g_sum_re, g_sum_im, g_evals, self->parts.last_pos)
 /* an arbitrary part is evaluated exactly once, none if the function vanishes */
 __CPROVER_ensures(g_evals == EXPECTED_EVALS(self))
@@ -370,7 +370,7 @@ __CPROVER_decreases((long)self->parts.n - iter.pos)
 __CPROVER_requires(-(1L << 62) <= MatsubaraNumber1 && MatsubaraNumber1 < (1L << 62) && -(1L << 62) <= MatsubaraNumber2 && MatsubaraNumber2 < (1L << 62) &&
                    -(1L << 62) <= MatsubaraNumber3 && MatsubaraNumber3 < (1L << 62))
 __CPROVER_requires(__CPROVER_is_fresh(self, sizeof(*self)) && g_self == self)
-__CPROVER_requires(PartVec_wf(&self->parts) && g_evals == 0 && SUM_IS_ZERO)
+__CPROVER_requires(g_wrap == (struct ComputeAndClearWrap *)0 && PartVec_wf(&self->parts) && g_evals == 0 && SUM_IS_ZERO)
 /* fermionic Matsubara frequencies: z_j = MatsubaraSpacing * (2 n_j + 1) */
 __CPROVER_requires(C_SAME(g_z1, op_mul_cplx_double(self->MatsubaraSpacing, (double)(2 * MatsubaraNumber1 + 1))) &&
                    C_SAME(g_z2, op_mul_cplx_double(self->MatsubaraSpacing, (double)(2 * MatsubaraNumber2 + 1))) &&
@@ -380,10 +380,10 @@ __CPROVER_ensures(g_evals == EXPECTED_EVALS(self))
 __CPROVER_ensures(C_SAME(__CPROVER_return_value, g_sum) && (!self->Vanishing || SUM_IS_ZERO))
 //@end
 
-//@harness h_TPGF_call_z enforce=TwoParticleGF_call_z props=C02 min_obl=405 timeout=60 reach=2
+//@harness h_TPGF_call_z enforce=TwoParticleGF_call_z props=C02 min_obl=434 timeout=60 reach=2
 void h_TPGF_call_z(void) { struct TwoParticleGF *g; cplx z1, z2, z3; TwoParticleGF_call_z(g, z1, z2, z3); REACH("exit"); }
 
-//@harness h_TPGF_call_n enforce=TwoParticleGF_call_n props=C02 min_obl=475 timeout=60 reach=2
+//@harness h_TPGF_call_n enforce=TwoParticleGF_call_n props=C02 min_obl=503 timeout=60 reach=2
 void h_TPGF_call_n(void) { struct TwoParticleGF *g; long n1, n2, n3; TwoParticleGF_call_n(g, n1, n2, n3); REACH("exit"); }
 
 /* ================================================================================================================
@@ -468,7 +468,7 @@ __CPROVER_loop_invariant(!W_GHOST(self) || ((unsigned long)w <= self->data_->gid
 __CPROVER_decreases(wsize - w)
 //@end
 
-//@harness h_CACW_run enforce=ComputeAndClearWrap_run props=C02,C17 min_obl=1245 timeout=60 reach=3
+//@harness h_CACW_run enforce=ComputeAndClearWrap_run props=C02,C17 min_obl=1233 timeout=60 reach=3
 void h_CACW_run(void) { struct ComputeAndClearWrap *wr; ComputeAndClearWrap_run(wr); REACH("exit"); }
 
 /* ================================================================================================================
@@ -498,10 +498,12 @@ void VERIF_mpi_deliver_hook(MpiReq *r, int value) { }
 /* `&cplx_ctor1(0.0)` is printed for the fill value of vector(n, value): the temporary must be addressable */
 #define cplx_ctor1(x_) (*(cplx[1]){ (cplx_ctor1)(x_) })
 
-FreqVec *g_freqs; Comm *g_comm; _Bool g_clear;      /* the arguments of compute() (compared, never dereferenced) */
+/* NB: ghost POINTERS are only compared, never dereferenced (a pointer CBMC knows through a requires-equality or a havocked static
+ * dereferences into every object of the program: out of memory); what the monitors must read travels in scalars / in the model objects. */
+FreqVec *g_freqs; Comm *g_comm; _Bool g_clear;      /* the arguments of compute() */
+unsigned long g_nfreq;                              /* = freqs.size() */
 unsigned long g_tidx;                               /* ghost index of every table created in compute() */
 CplxVec *g_table;                                   /* the table the wrappers point to */
-CplxVec *g_hvec[2]; unsigned long g_nh;             /* the vectors whose data() / [0] was taken, in order */
 unsigned long g_n_push, g_push_hits, g_n_run, g_n_reduce, g_n_barrier;
 cplx g_reduced;                                     /* value the reduction delivers at the ghost index (root) */
 int g_owner;                                        /* rank that ran the ghost part: job_map[gidx] */
@@ -509,7 +511,15 @@ int g_owner;                                        /* rank that ran the ghost p
 static inline CplxVec CplxVec_ctor0(void) { CplxVec v; v.size = 0; v.gidx = g_tidx; v.ghits = 0; v.gelem = (cplx_ctor1)(0.0); v.scratch = (cplx_ctor1)(0.0); return v; }
 static inline void CplxVec_resize(CplxVec *v, unsigned long n, cplx val) { if (v->size <= v->gidx) v->gelem = val; v->size = n; }   /* new slots = val */
 static inline CplxVec CplxVec_ctor2(unsigned long n, cplx *val) { CplxVec v = CplxVec_ctor0(); v.size = n; v.gelem = *val; return v; }
-static inline cplx *CplxVec_data(CplxVec *v) { if (g_nh < 2) g_hvec[g_nh] = v; g_nh++; return &v->gelem; }   /* valid for an empty vector too */
+static inline cplx *CplxVec_data(CplxVec *v) { return &v->gelem; }   /* valid for an empty vector too */
+#include <stddef.h>
+/* the vector a buffer pointer belongs to (the tables are local objects: offset inside the object = offset of the member) */
+static inline CplxVec *vec_of(cplx *p)
+{
+  long off = (long)__CPROVER_POINTER_OFFSET(p);
+  __CPROVER_assert(off == (long)offsetof(CplxVec, gelem) || off == (long)offsetof(CplxVec, scratch), "C17: the buffer handed to reduce is the storage of a vector");
+  return (CplxVec *)((char *)p - off);
+}
 static inline void swap(CplxVec *a, CplxVec *b) { CplxVec t = *a; *a = *b; *b = t; }
 /* ---- operator[] of `parts` (ghost-element view) */
 static inline struct TwoParticleGFPart **PartVec_at(PartVec *v, unsigned long i)
@@ -531,19 +541,19 @@ static inline void WrapVec_push_back(WrapVec *v, struct ComputeAndClearWrap w)
   PartVec *pv = &g_self->parts;
   /* wrapper number k is built for part number k, from the arguments of compute() and ONE table */
   __CPROVER_assert(v->n < pv->n, "C02: at most one wrapper per part");
-  __CPROVER_assert(w.freqs_ == g_freqs && w.clear_ == g_clear && w.fill_ == (g_freqs->size > 0) && w.complexity == 1, "C02: wrapper = (&freqs, ., ., clear, !freqs.empty(), complexity 1)");
+  __CPROVER_assert(w.freqs_ == g_freqs && w.clear_ == g_clear && w.fill_ == (g_nfreq > 0) && w.complexity == 1, "C02: wrapper = (&freqs, ., ., clear, !freqs.empty(), complexity 1)");
   if (v->n == 0) g_table = w.data_;
-  __CPROVER_assert(w.data_ == g_table && g_table->size == g_freqs->size, "C02: every wrapper fills the same table, which has freqs.size() slots");
+  __CPROVER_assert(w.data_ == g_table && w.data_->size == g_nfreq, "C02: every wrapper fills the same table, which has freqs.size() slots");
   if ((long)v->n == pv->gidx) { __CPROVER_assert(w.p == pv->gitem, "C02: wrapper k evaluates parts[k]"); g_push_hits++; }
   g_n_push++; v->n++;
   REACH("push wrapper");
 }
 /* mpi_skel<ComputeAndClearWrap>::run(comm, verbose) (C16): every wrapper is run on some rank; the wrappers run HERE add into the table
- * (contents arbitrary afterwards, length unchanged: contract of ComputeAndClearWrap::run above); returns the job -> rank map. */
+ * (length unchanged: contract of ComputeAndClearWrap::run above; the CONTENTS of the table after the run are not modelled: their only
+ * consumer is reduce, whose result is opaque); returns the job -> rank map. */
 static inline IntMap Skel_run(struct Skel *s, Comm *comm, _Bool verbose)
 {
   __CPROVER_assert(s->parts.n == g_self->parts.n && comm == g_comm, "C02: the skeleton is run on compute()'s communicator after a wrapper has been added for every part");
-  if (g_table) g_table->gelem = cplx_ctor2(nondet_double(), nondet_double());
   g_n_run++;
   IntMap m; m.size = nondet_ulong(); m.gkey = g_self->parts.gidx; m.gpresent = 1; m.gval = g_owner; m.other = 0; m.inv_pool = 0; m.gpos = 0;
   REACH("skel.run");
@@ -554,12 +564,11 @@ static inline IntMap Skel_run(struct Skel *s, Comm *comm, _Bool verbose)
 static inline void reduce(Comm *comm, cplx *in, int n, cplx *out, int op, int root)
 {
   __CPROVER_assert(comm == g_comm && root == 0, "C02: reduced onto rank 0 of compute()'s communicator");
-  __CPROVER_assert(g_nh == 2 && (in == &g_hvec[0]->gelem || in == &g_hvec[0]->scratch) && (out == &g_hvec[1]->gelem || out == &g_hvec[1]->scratch),
-                   "C17: the buffers handed to reduce are the storage of two vectors");
-  __CPROVER_assert(g_hvec[0] == g_table || g_table == (CplxVec *)0, "C02: the table filled by the wrappers is the one that is reduced");
-  __CPROVER_assert(n >= 0 && (unsigned long)n == g_hvec[0]->size && (unsigned long)n == g_hvec[1]->size && (unsigned long)n == g_freqs->size,
+  CplxVec *vi = vec_of(in), *vo = vec_of(out);
+  __CPROVER_assert(vi == g_table || g_table == (CplxVec *)0, "C02: the table filled by the wrappers is the one that is reduced");
+  __CPROVER_assert(n >= 0 && (unsigned long)n == vi->size && (unsigned long)n == vo->size && (unsigned long)n == g_nfreq,
                    "C17: both buffers hold exactly the n = freqs.size() elements that are reduced");
-  if (comm->rank_ == root) g_hvec[1]->gelem = g_reduced;
+  if (comm->rank_ == root) vo->gelem = g_reduced;
   g_n_reduce++;
   REACH("reduce");
 }
@@ -573,13 +582,13 @@ static inline void broadcast_r(Comm *comm, TermListR *t, int root) { __CPROVER_a
 //@function Pomerol::TwoParticleGF::compute(bool, std::vector<boost::tuples::tuple<std::complex<double>, std::complex<double>, std::complex<double>, boost::tuples::null_type, boost::tuples::null_type, boost::tuples::null_type, boost::tuples::null_type, boost::tuples::null_type, boost::tuples::null_type, boost::tuples::null_type>, std::allocator<boost::tuples::tuple<std::complex<double>, std::complex<double>, std::complex<double>, boost::tuples::null_type, boost::tuples::null_type, boost::tuples::null_type, boost::tuples::null_type, boost::tuples::null_type, boost::tuples::null_type, boost::tuples::null_type> > > const&, boost::mpi::communicator const&) as TwoParticleGF_compute
 //@contract
 __CPROVER_requires(__CPROVER_is_fresh(self, sizeof(*self)) && g_self == self)
-__CPROVER_requires(__CPROVER_is_fresh(freqs, sizeof(*freqs)) && __CPROVER_is_fresh(comm, sizeof(*comm)) && g_freqs == freqs && g_comm == comm && g_clear == clear)
+__CPROVER_requires(__CPROVER_is_fresh(freqs, sizeof(*freqs)) && __CPROVER_is_fresh(comm, sizeof(*comm)) && g_freqs == freqs && g_comm == comm && g_clear == clear && g_nfreq == freqs->size)
 __CPROVER_requires(freqs->size <= FV_MAX)      /* LIMIT: the element count handed to reduce is an int */
 __CPROVER_requires(self->parts.n <= PV_MAX && (self->parts.gidx == -1 || (0 <= self->parts.gidx && self->parts.gidx < (long)self->parts.n)))
 __CPROVER_requires(__CPROVER_is_fresh(self->parts.gitem, sizeof(struct TwoParticleGFPart)) && __CPROVER_is_fresh(self->parts.oitem, sizeof(struct TwoParticleGFPart)))
 __CPROVER_requires(GP(self)->NonResonantTerms.n_bcast == 0 && GP(self)->ResonantTerms.n_bcast == 0)
-__CPROVER_requires(g_n_push == 0 && g_push_hits == 0 && g_n_run == 0 && g_n_reduce == 0 && g_nh == 0 && g_n_barrier == 0 && g_table == (CplxVec *)0 && !VERIF_thrown)
-__CPROVER_assigns(self->Status, VERIF_thrown, g_n_push, g_push_hits, g_n_run, g_n_reduce, g_nh, g_n_barrier, g_table, __CPROVER_object_whole(g_hvec),
+__CPROVER_requires(g_n_push == 0 && g_push_hits == 0 && g_n_run == 0 && g_n_reduce == 0 && g_n_barrier == 0 && g_table == (CplxVec *)0 && !VERIF_thrown)
+__CPROVER_assigns(self->Status, VERIF_thrown, g_n_push, g_push_hits, g_n_run, g_n_reduce, g_n_barrier, g_table,
                   __CPROVER_object_whole(self->parts.gitem), __CPROVER_object_whole(self->parts.oitem))
 /* Status < Prepared: exception, nothing done */
 __CPROVER_ensures(VERIF_thrown == (__CPROVER_old(self->Status) < Prepared))
@@ -612,10 +621,54 @@ __CPROVER_loop_invariant(!HAS_GP(self) || ((long)p <= self->parts.gidx
 __CPROVER_decreases(self->parts.n - p)
 //@end
 
-//@harness h_TPGF_compute enforce=TwoParticleGF_compute props=C02,C17 min_obl=100 timeout=600 reach=6
+//@harness h_TPGF_compute enforce=TwoParticleGF_compute props=C02,C17 min_obl=1407 timeout=120 reach=6
 void h_TPGF_compute(void)
 {
   struct TwoParticleGF *g; _Bool clear; FreqVec *f; Comm *c;
   TwoParticleGF_compute(g, clear, f, c);
   if (VERIF_thrown) REACH("thrown"); else REACH("exit");
 }
+
+/* ================================================================ what is / is not proved, assumptions, mutation record
+ * MODEL DECISIONS
+ *  - The block maps of C1, C2, CX3 are only looked up in prepare(): FieldOperator::getLeftIndex / getRightIndex are CALLEE CONTRACTS
+ *    (one-to-one partner look-up, stated point-wise against ONE ghost relation per operator), not extracted: with the three bimaps as
+ *    arrays (stubs/bimap.h) the harness exceeded 15 min / 8 GB.  Only CX4's right view, which prepare() walks, is a real view.
+ *  - DensityMatrix::isRetained is an opaque oracle of the block number (ghost array g_retained[]); getPart() of Hamiltonian / DensityMatrix /
+ *    FieldOperator return opaque handles and assert their argument to be a block / a left block of a relation.
+ *  - Completeness is stated for a CLOSED ghost chain <1|O1|2><2|O2|3><3|O3|4><4|CX4|1> (arbitrary relations, arbitrary permutation):
+ *    exactly one part iff one of the four blocks is retained.  Soundness ("nothing else") is the monitor of `new TwoParticleGFPart`:
+ *    every part created has such a chain (witness relations), a retained block and the documented constituents.
+ *  - C1, C2, CX3, CX4 are embedded objects: aliasing of two operator arguments is covered as "two operators with equal contents".
+ *  - The inner loops (p < 6, k < 4) carry loop contracts (goto-instrument refuses un-contracted loops inside a contracted one).
+ *  - compute(): mpi_skel::run, boost::mpi::reduce and the term-list broadcasts are contract stubs; the contents of the table after the run
+ *    are not modelled (the reduce result is opaque).  NOT proved: anything about the values that reach the table across ranks (C06 / C16).
+ *  - LIMITS: freqs.size() <= INT_MAX (`int wsize`, `int` count of reduce); |n| < 2^62 in operator()(long,long,long).
+ * OBSERVATION (documented behaviour, not a defect): compute() returns an EMPTY table, not freqs.size() zeros, when the function vanishes or
+ *    was computed before; on ranks != 0 the returned table is all zeros.
+ *
+ * MUTANTS (scratch copies of /repo)                                                        caught by
+ *  h_TPGF_prepare  one of the four isRetained tests dropped (k!=2 && ...)                   loop_invariant_step.2/.4/.10/.12 (k-loop: OR of all four)
+ *                  OperatorPartAtPosition(p,1,..) twice (perm[1] used twice)                new-part monitor "operator parts", getPartFromLeftIndex pre-condition
+ *                  H.getPart(L[1]), H.getPart(L[0]) swapped                                 new-part monitor "Hamiltonian parts of the blocks 1,2,3,4"
+ *                  p<6 -> p<5                                                               loop_invariant_step.21 (completeness at the ghost permutation)
+ *                  CoefficientTolerance := MultiTermCoefficientTolerance                    loop_invariant_step.8/.16 (tolerances copied)
+ *                  getRightIndex(p,0,L[1]) in the closing test                              postcondition.4/.6/.7 + monitor (relations, C19, parts)
+ *                  first/second of the CX4 relation swapped                                 monitor (relations of O1/O3, all constituents), loop_invariant_step.7/.15
+ *                  `if(!include_block_retained) continue;` dropped                          monitor "C19: no part for a stripe of discarded blocks", loop_invariant_step.7/.15
+ *  h_TPGF_call_z   part evaluated at (z1,z3,z2)                                             evaluation monitor "evaluated at the frequencies (z1,z2,z3)"
+ *                  Value = instead of +=                                                    loop invariant (accumulator == model)
+ *                  Vanishing returns 1.0                                                    postcondition.2/.3
+ *  h_TPGF_call_n   2n instead of 2n+1 for the second frequency; arguments swapped           evaluation monitor
+ *  h_CACW_run      = instead of +=; get<1>/get<2> swapped                                   loop_invariant_step.2
+ *                  w < wsize-1                                                              postcondition.1/.3
+ *                  clear() iff fill_; clear() inside the fill branch                        postcondition.2
+ *                  p->compute() dropped                                                     postcondition.1, monitor "evaluated after compute()"
+ *  h_TPGF_compute  pre-fix D12: reduce(comm, &m_data[0], .., &m_data2[0], ..)               CplxVec_at.assertion.1 "operator[] inside the vector" (empty list)
+ *                  resize(freqs.size()+1); m_data2(parts.size())                            postcondition.6, reduce monitor (n elements), wrapper monitor
+ *                  parts[0] for every wrapper                                               wrapper monitor "wrapper k evaluates parts[k]"
+ *                  if (clear) broadcast                                                     postcondition.8
+ *                  broadcast root 0 instead of job_map[p]                                   loop_invariant_step.5
+ *                  std::swap dropped                                                        postcondition.7 (returned table = reduced table on rank 0)
+ *                  `if (Status >= Computed) return` dropped                                 postcondition.3/.4
+ */
